@@ -4,29 +4,29 @@ EXTENDS Filters, Json
 
 CONSTANTS Alphabet, MaxRowLen, MaxRows, MaxLenAscii
 
-VARIABLES kind, x, geo, tags, opt, stage
-vars == <<kind, x, geo, tags, opt, stage>>
+VARIABLES kind, x, geo, tags, opt, stage, pred
+vars == <<kind, x, geo, tags, opt, stage, pred>>
 
 \* geometry: [cols, colors]; row length = cols * colors
 Geos == {g \in [cols : 1..MaxRowLen, colors : 1..2] : g.cols * g.colors <= MaxRowLen}
 RowLen(g) == g.cols * g.colors
 
 Init == /\ kind \in {"png", "tiff", "hex", "a85", "chain", "err"}
-        /\ x = <<>> /\ geo = [cols |-> 1, colors |-> 1] /\ tags = <<>> /\ opt = "none" /\ stage = "geo"
+        /\ x = <<>> /\ geo = [cols |-> 1, colors |-> 1] /\ tags = <<>> /\ opt = "none" /\ stage = "geo" /\ pred = 0
 
 PickGeo == /\ stage = "geo"
            /\ IF kind \in {"png", "tiff"} THEN \E g \in Geos : geo' = g ELSE geo' = geo
-           /\ stage' = "rows" /\ UNCHANGED <<kind, x, tags, opt>>
+           /\ stage' = "rows" /\ UNCHANGED <<kind, x, tags, opt, pred>>
 \* number of rows / per-row filter types (png), payload length (others)
 PickRows == /\ stage = "rows"
             /\ IF kind = "png" THEN \E n \in 1..MaxRows : \E t \in [1..n -> 0..4] : tags' = t
                ELSE IF kind = "tiff" THEN \E n \in 1..MaxRows : tags' = [i \in 1..n |-> 0]
                ELSE tags' = tags
-            /\ stage' = "data" /\ UNCHANGED <<kind, x, geo, opt>>
+            /\ stage' = "data" /\ UNCHANGED <<kind, x, geo, opt, pred>>
 Lens == IF kind \in {"png", "tiff"} THEN {Len(tags) * RowLen(geo)} ELSE 0..MaxLenAscii
 AddByte == /\ stage = "data" /\ Len(x) < CHOOSE m \in Lens : \A k \in Lens : k <= m
            /\ \E b \in Alphabet : x' = Append(x, b)
-           /\ UNCHANGED <<kind, geo, tags, opt, stage>>
+           /\ UNCHANGED <<kind, geo, tags, opt, stage, pred>>
 Finish == /\ stage = "data" /\ Len(x) \in Lens
           /\ \E o \in (CASE kind = "hex" -> {"upper", "lower", "ws", "odd", "noeod"}
                          [] kind = "a85" -> {"plain", "ws", "lead"}
@@ -35,6 +35,9 @@ Finish == /\ stage = "data" /\ Len(x) \in Lens
                          [] kind = "chain" -> {"AHx+A85", "A85+AHx", "A85+Fl", "AHx+Fl", "AHx+A85+Fl", "abbrev", "null-parms", "Fl+png",
                                                "Fl+Fl:dict-null", "Fl+Fl:short", "Fl+Fl:null-dict", "AHx+Fl+Fl:null-dict-null"}
                          [] kind = "err" -> {"tag5", "rowsize", "badhex", "bad85", "over85"}) : opt' = o
+          \* the /Predictor value written in the dictionary: for PNG any of 10..15 - it only says "PNG prediction is in
+          \* use"; the filter type of a row is the tag byte in front of it (ISO 32000-1 7.4.4.4), whatever was declared
+          /\ IF kind = "png" THEN \E p \in 10..15 : pred' = p ELSE pred' = (IF kind = "tiff" THEN 2 ELSE 0)
           /\ stage' = "done" /\ UNCHANGED <<kind, x, geo, tags>>
 Next == PickGeo \/ PickRows \/ AddByte \/ Finish
 Spec == Init /\ [][Next]_vars
@@ -61,7 +64,7 @@ Encoded ==
       [] kind = "err" /\ opt = "over85"  -> <<115, 56, 87, 45, 34, 126, 62>>                    \* "s8W-\"" = 2^32
 Expect == IF kind = "err" THEN "error" ELSE "bytes"
 
-Case == [kind |-> kind, opt |-> opt, x |-> x, cols |-> geo.cols, colors |-> geo.colors, tags |-> tags,
+Case == [kind |-> kind, opt |-> opt, pred |-> pred, x |-> x, cols |-> geo.cols, colors |-> geo.colors, tags |-> tags,
          enc |-> Encoded, expect |-> Expect]
 Emit == Done => PrintT(ToJson(Case))
 
